@@ -68,8 +68,130 @@ def check_discipline(chk) -> None:
         chk.error("index-discipline", "-", f"only {total} index conversion sites bound (27 on the pinned tree)")
 
 
+class _E:
+    """Stub of common.Entry for fragment evaluation: named fields in the instance dict (what the folder reads) plus positional access."""
+
+    def __init__(self, t):
+        self.index_, self.sequence, self.pair = t
+
+    def _t(self):
+        return (self.index_, self.sequence, self.pair)
+
+    def __getitem__(self, i):
+        return self._t()[i]
+
+    def __iter__(self):
+        return iter(self._t())
+
+    def __len__(self):
+        return 3
+
+    def __eq__(self, o):
+        return isinstance(o, _E) and o._t() == self._t()
+
+    def __hash__(self):
+        return hash(self._t())
+
+    def __repr__(self):
+        return f"E{self._t()}"
+
+
+def _eval_strand(repo, entries, dotbracket):
+    from sa.blockeval import BlockEval
+
+    fi = repo.func(MOD, "Strand.from_bpseq_entries")
+    params = [a.arg for a in fi.node.args.args]
+    env = {params[0]: list(entries), params[1]: dotbracket, "Strand": lambda *a: ("Strand",) + tuple(a)}
+    defaults = fi.node.args.defaults
+    for a, d in zip(params[len(params) - len(defaults) :], defaults):
+        env[a] = d.value if isinstance(d, ast.Constant) else None
+    kind, val = BlockEval(repo, MOD, env).run(fi.node.body)
+    return val if kind == "return" else None
+
+
+def check_strand_eval(chk) -> bool:
+    """Evaluate the two constructors on representatives (sa/blockeval.py): the strand span and texts are affine in (first, length), so
+    three spans with distinct letters over a position-coded dot-bracket fix them; a stem's 3' strand is the ascending list of partners."""
+    from sa.blockeval import BlockEval, Unknown
+
+    repo = chk.repo
+    fi = repo.func(MOD, "Strand.from_bpseq_entries")
+    sf = repo.func(MOD, "Stem.from_bpseq_entries")
+    db = "abcdefghijklmnopqrstuvwxyz"
+    letters = "ACGUNXYZKLMRSTWBDHVIPQEFJO"
+    try:
+        bad = []
+        for first, n in ((5, 3), (2, 1), (9, 4), (1, 2)):
+            ents = [_E((first + t, letters[first + t], 0)) for t in range(n)]
+            got = _eval_strand(repo, ents, db)
+            want = ("Strand", first, first + n - 1, "".join(letters[first + t] for t in range(n)), db[first - 1 : first + n - 1])
+            if got != want:
+                bad.append((want, got))
+        if bad:
+            w, g = bad[0]
+            what = [nm for nm, a, b in zip(("first", "last", "sequence", "structure"), w[1:], (g[1:] if isinstance(g, tuple) and len(g) == 5 else (None,) * 4)) if a != b]
+            chk.violation(
+                "strand-eval",
+                fi.where,
+                f"Strand.from_bpseq_entries evaluated on entries {w[1]}..{w[2]} over a position-coded dot-bracket gives {g}, expected {w}: {', '.join(what) or 'result'} is not the span / the letters / the slice [first-1:last] of the entries",
+                K(fi, "strand-eval"),
+                expected=list(w),
+                found=list(g) if isinstance(g, tuple) else g,
+            )
+        else:
+            chk.ok("strand-eval", fi.where, "evaluated on 4 spans: Strand(first, first+len-1, letters in order, dotbracket[first-1:last])")
+        # stems: 5' strands of two stems inside a 20-nt structure, one nested in a knot-like arrangement
+        n = 20
+        pairs = {3: 18, 4: 17, 7: 12, 8: 11, 9: 10}
+        full = {}
+        for a, b in pairs.items():
+            full[a], full[b] = b, a
+        all_entries = [_E((i, letters[i], full.get(i, 0))) for i in range(1, n + 1)]
+        sbad = []
+        for five in ((3, 4), (7, 8, 9), (7,)):
+            p5 = [all_entries[i - 1] for i in five]
+            params = [a.arg for a in sf.node.args.args]
+
+            class _S:
+                _folder_stub = True
+
+                @staticmethod
+                def from_bpseq_entries(e, d, *rest):
+                    return _eval_strand(repo, e, d)
+
+                def __call__(self, *a):
+                    return ("Strand",) + tuple(a)
+
+            env = {params[0]: p5, params[1]: list(all_entries), params[2]: db[:n], "Strand": _S(), "Stem": lambda a, b: ("Stem", a, b)}
+            kind, val = BlockEval(repo, MOD, env).run(sf.node.body)
+            three = sorted(full[i] for i in five)
+            want = (
+                "Stem",
+                ("Strand", five[0], five[-1], "".join(letters[i] for i in five), db[five[0] - 1 : five[-1]]),
+                ("Strand", three[0], three[-1], "".join(letters[i] for i in three), db[three[0] - 1 : three[-1]]),
+            )
+            if kind != "return" or val != want:
+                sbad.append((want, val))
+        if sbad:
+            w, g = sbad[0]
+            chk.violation("stem-eval", sf.where, f"Stem.from_bpseq_entries evaluated on the 5' strand {w[1][1]}..{w[1][2]} gives {g}, expected {w}: the 3' strand is not the ascending run of partners over the same dot-bracket", K(sf, "stem-eval"), expected=repr(w), found=repr(g))
+        else:
+            chk.ok("stem-eval", sf.where, "evaluated on 3 stems: Stem(5' strand, 3' strand = the partners in ascending order), both sliced from the given dot-bracket")
+        return True
+    except Unknown as e:
+        chk.ok("strand-eval", fi.where, f"constructors not evaluable ({str(e)[:100]}); falling back to the pinned forms")
+        return False
+    except Exception as e:
+        chk.ok("strand-eval", fi.where, f"constructors not evaluable ({type(e).__name__}: {str(e)[:80]}); falling back to the pinned forms")
+        return False
+
+
 def check_strand(chk) -> None:
     repo = chk.repo
+    if check_strand_eval(chk):
+        chk.note_function(repo.func(MOD, "Strand.from_bpseq_entries"))
+        chk.note_function(repo.func(MOD, "Stem.from_bpseq_entries"))
+        return
     fi = repo.func(MOD, "Strand.from_bpseq_entries")
     chk.note_function(fi)
     d = {nm: astq.assignments(fi.node, nm) for nm in ("first", "last", "sequence", "structure")}
@@ -170,89 +292,93 @@ def check_elements(chk) -> None:
     # fact-level rules first (checks/c07e.py); the pinned-form rules below are only the fallback when the code cannot be read at fact level
     from checks import c07e
 
-    why = c07e.check(chk, fi)
-    if why is None:
-        check_walk_and_result(chk, fi)
-        return
-    chk.ok("elements-facts", fi.where, f"fact-level reading not possible ({why[:120]}); falling back to the pinned forms")
-    # stems + stops
-    sl = [l for l in fi.node.body if isinstance(l, ast.For) and norm(l.iter).endswith("__stems_entries")]
-    ok = False
-    if len(sl) == 1:
-        body = [flat(s) for s in sl[0].body]
-        v = norm(sl[0].target)
-        want = [flat(f"stem = Stem.from_bpseq_entries({v}, self.entries, self.dot_bracket.structure)"), flat("stems.append(stem)")] + [flat(f"stopset.add(stem.{s}.{e} - 1)") for s in ("strand5p", "strand3p") for e in ("first", "last")]
-        ok = body[:2] == want[:2] and sorted(body[2:]) == sorted(want[2:])
-    chk.expect(ok, "elements-stops", fi.site(sl[0]) if sl else fi.where, "stops are exactly the four strand ends of every stem, as 0-based positions", "the stop set is not {strand5p.first, strand5p.last, strand3p.first, strand3p.last} - 1 of every stem", K(fi, "stops"))
-    st = astq.first_assign(fi.node, "stops")
-    chk.expect(st is not None and norm(st) == "sorted(stopset)", "elements-stops", fi.where, "stops = sorted(stopset)", "stops is not sorted(stopset)", K(fi, "stops-sorted"))
-    # 5' tail
-    ifs = [s for s in fi.node.body if isinstance(s, ast.If)]
-    t5 = [s for s in ifs if norm(s.test) in ("stops[0] > 0", "0 < stops[0]")]
-    ok = len(t5) == 1 and flat(t5[0].body[0]) == flat("single_strands.append(SingleStrand(Strand.from_bpseq_entries(self.entries[:stops[0] + 1], self.dot_bracket.structure), True, False))")
-    chk.expect(ok, "elements-tail5", fi.where, "5' tail = entries[0 .. stops[0]] when stops[0] > 0", "the 5' single strand is not entries[:stops[0] + 1] under stops[0] > 0 (flags True, False)", K(fi, "tail5"))
-    t3 = [s for s in ifs if norm(s.test) in ("stops[-1] < len(self.entries) - 1", "len(self.entries) - 1 > stops[-1]")]
-    ok = len(t3) == 1 and flat(t3[0].body[0]) == flat("single_strands.append(SingleStrand(Strand.from_bpseq_entries(self.entries[stops[-1]:], self.dot_bracket.structure), False, True))")
-    chk.expect(ok, "elements-tail3", fi.where, "3' tail = entries[stops[-1] .. end] when stops[-1] < len - 1", "the 3' single strand is not entries[stops[-1]:] under stops[-1] < len(entries) - 1 (flags False, True)", K(fi, "tail3"))
-    # candidates
-    cl = [l for l in fi.node.body if isinstance(l, ast.For) and norm(l.iter) == "range(1, len(stops))"]
-    ok = False
-    if len(cl) == 1 and isinstance(cl[0].target, ast.Name):
-        i = cl[0].target.id
-        body = cl[0].body
-        c0 = body[0] if body else None
-        ok = c0 is not None and flat(c0) == flat(f"candidate = self.entries[stops[{i} - 1]:stops[{i}] + 1]")
-        inner = body[1] if len(body) == 2 and isinstance(body[1], ast.If) else None
-        ok = ok and inner is not None and flat(inner.test) in (flat("all([entry.pair == 0 for entry in candidate[1:-1]])"), flat("all(entry.pair == 0 for entry in candidate[1:-1])"))
-        if ok:
-            hp = inner.body[0] if len(inner.body) == 1 and isinstance(inner.body[0], ast.If) else None
-            ok = hp is not None and norm(hp.test) in ("candidate[0].pair == candidate[-1].index_", "candidate[-1].index_ == candidate[0].pair", "candidate[0].index_ == candidate[-1].pair")
-            ok = ok and [flat(s) for s in hp.body] == [flat("hairpins.append(Hairpin(Strand.from_bpseq_entries(candidate, self.dot_bracket.structure)))")]
-            ok = ok and [flat(s) for s in hp.orelse] == [flat("loop_candidates.append(Strand.from_bpseq_entries(candidate, self.dot_bracket.structure))")]
-            ok = ok and not inner.orelse
-    chk.expect(
-        ok,
-        "elements-windows",
-        fi.site(cl[0]) if cl else fi.where,
-        "every window entries[stops[i-1] .. stops[i]] (closed) with an unpaired interior is a hairpin iff its ends pair with each other, else a loop strand candidate",
-        "the candidate windows are not the closed windows entries[stops[i-1]:stops[i]+1] for i in 1..len(stops)-1 with the interior/hairpin tests",
-        K(fi, "windows"),
-    )
-    # linking graph
-    ll = [l for l in fi.node.body if isinstance(l, ast.For) and norm(l.iter) == "range(len(loop_candidates))"]
-    ok = False
-    if ll:
-        l0 = ll[0]
-        inner = [x for x in l0.body if isinstance(x, ast.For)]
-        if len(inner) == 1 and isinstance(l0.target, ast.Name) and isinstance(inner[0].target, ast.Name):
-            i, j = l0.target.id, inner[0].target.id
-            ok = norm(inner[0].iter) in (f"range({i} + 1, len(loop_candidates))",)
-            txt = [flat(s) for s in inner[0].body]
-            want = [
-                flat(f"i_first, i_last = loop_candidates[{i}].first, loop_candidates[{i}].last"),
-                flat(f"j_first, j_last = loop_candidates[{j}].first, loop_candidates[{j}].last"),
-                flat(f"if self.entries[i_last - 1].pair == j_first:\n    graph[{i}].add({j})"),
-                flat(f"if self.entries[j_last - 1].pair == i_first:\n    graph[{j}].add({i})"),
-            ]
-            ok = ok and txt == want
-    chk.expect(ok, "elements-links", fi.site(ll[0]) if ll else fi.where, "strand a links to strand b iff the nucleotide at a.last pairs with b.first (both directions examined for every pair)", "the linking graph is not built from entries[x_last - 1].pair == y_first over all pairs of loop candidates in both directions", K(fi, "links"))
-    # closure + loop record
-    closes = [s for s in ast.walk(fi.node) if isinstance(s, ast.If) and norm(s.test) == "self.entries[loop[0].first - 1].pair == loop[-1].last"]
-    ok = False
-    if len(closes) == 1:
-        inner = closes[0].body[0] if len(closes[0].body) == 1 and isinstance(closes[0].body[0], ast.If) else None
-        ok = inner is not None and flat(inner.test) in (flat("not all([strand.last - strand.first <= 1 for strand in loop])"), flat("not all(strand.last - strand.first <= 1 for strand in loop)"), flat("any(strand.last - strand.first > 1 for strand in loop)"))
-        ok = ok and [flat(s) for s in inner.body] == [flat("loops.append(Loop(loop))"), flat("used.update(loop)")]
-    chk.expect(ok, "elements-closure", fi.where, "a walk is a loop iff the first strand's first nucleotide pairs with the last strand's last; it is recorded in walk order", "loop closure/record is not `entries[loop[0].first - 1].pair == loop[-1].last` -> loops.append(Loop(loop)) in walk order", K(fi, "closure"))
-    # leftovers
-    lo = [l for l in fi.node.body if isinstance(l, ast.For) and norm(l.iter) == "loop_candidates"]
-    ok = len(lo) == 1 and len(lo[0].body) == 1 and isinstance(lo[0].body[0], ast.If) and flat(lo[0].body[0].test) == flat(f"{norm(lo[0].target)} not in used") and [flat(s) for s in lo[0].body[0].body] == [flat(f"single_strands.append(SingleStrand({norm(lo[0].target)}, False, False))")]
-    chk.expect(ok, "elements-leftover", fi.where, "loop candidates that are in no loop become single strands", "loop candidates not used by a loop are not all reported as SingleStrand(candidate, False, False)", K(fi, "leftover"))
-    check_walk_and_result(chk, fi)
+    failed = c07e.check(chk, fi)
+    for aspect, why in sorted(failed.items()):
+        chk.ok("elements-facts", fi.where, f"fact-level reading of `{aspect}` not possible ({why[:120]}); falling back to its pinned form")
+    if "stops" in failed:
+        # stems + stops
+        sl = [l for l in fi.node.body if isinstance(l, ast.For) and norm(l.iter).endswith("__stems_entries")]
+        ok = False
+        if len(sl) == 1:
+            body = [flat(s) for s in sl[0].body]
+            v = norm(sl[0].target)
+            want = [flat(f"stem = Stem.from_bpseq_entries({v}, self.entries, self.dot_bracket.structure)"), flat("stems.append(stem)")] + [flat(f"stopset.add(stem.{s}.{e} - 1)") for s in ("strand5p", "strand3p") for e in ("first", "last")]
+            ok = body[:2] == want[:2] and sorted(body[2:]) == sorted(want[2:])
+        chk.expect(ok, "elements-stops", fi.site(sl[0]) if sl else fi.where, "stops are exactly the four strand ends of every stem, as 0-based positions", "the stop set is not {strand5p.first, strand5p.last, strand3p.first, strand3p.last} - 1 of every stem", K(fi, "stops"))
+        st = astq.first_assign(fi.node, "stops")
+        chk.expect(st is not None and norm(st) == "sorted(stopset)", "elements-stops", fi.where, "stops = sorted(stopset)", "stops is not sorted(stopset)", K(fi, "stops-sorted"))
+    if "tails" in failed:
+        # 5' tail
+        ifs = [s for s in fi.node.body if isinstance(s, ast.If)]
+        t5 = [s for s in ifs if norm(s.test) in ("stops[0] > 0", "0 < stops[0]")]
+        ok = len(t5) == 1 and flat(t5[0].body[0]) == flat("single_strands.append(SingleStrand(Strand.from_bpseq_entries(self.entries[:stops[0] + 1], self.dot_bracket.structure), True, False))")
+        chk.expect(ok, "elements-tail5", fi.where, "5' tail = entries[0 .. stops[0]] when stops[0] > 0", "the 5' single strand is not entries[:stops[0] + 1] under stops[0] > 0 (flags True, False)", K(fi, "tail5"))
+        t3 = [s for s in ifs if norm(s.test) in ("stops[-1] < len(self.entries) - 1", "len(self.entries) - 1 > stops[-1]")]
+        ok = len(t3) == 1 and flat(t3[0].body[0]) == flat("single_strands.append(SingleStrand(Strand.from_bpseq_entries(self.entries[stops[-1]:], self.dot_bracket.structure), False, True))")
+        chk.expect(ok, "elements-tail3", fi.where, "3' tail = entries[stops[-1] .. end] when stops[-1] < len - 1", "the 3' single strand is not entries[stops[-1]:] under stops[-1] < len(entries) - 1 (flags False, True)", K(fi, "tail3"))
+    if "windows" in failed:
+        # candidates
+        cl = [l for l in fi.node.body if isinstance(l, ast.For) and norm(l.iter) == "range(1, len(stops))"]
+        ok = False
+        if len(cl) == 1 and isinstance(cl[0].target, ast.Name):
+            i = cl[0].target.id
+            body = cl[0].body
+            c0 = body[0] if body else None
+            ok = c0 is not None and flat(c0) == flat(f"candidate = self.entries[stops[{i} - 1]:stops[{i}] + 1]")
+            inner = body[1] if len(body) == 2 and isinstance(body[1], ast.If) else None
+            ok = ok and inner is not None and flat(inner.test) in (flat("all([entry.pair == 0 for entry in candidate[1:-1]])"), flat("all(entry.pair == 0 for entry in candidate[1:-1])"))
+            if ok:
+                hp = inner.body[0] if len(inner.body) == 1 and isinstance(inner.body[0], ast.If) else None
+                ok = hp is not None and norm(hp.test) in ("candidate[0].pair == candidate[-1].index_", "candidate[-1].index_ == candidate[0].pair", "candidate[0].index_ == candidate[-1].pair")
+                ok = ok and [flat(s) for s in hp.body] == [flat("hairpins.append(Hairpin(Strand.from_bpseq_entries(candidate, self.dot_bracket.structure)))")]
+                ok = ok and [flat(s) for s in hp.orelse] == [flat("loop_candidates.append(Strand.from_bpseq_entries(candidate, self.dot_bracket.structure))")]
+                ok = ok and not inner.orelse
+        chk.expect(
+            ok,
+            "elements-windows",
+            fi.site(cl[0]) if cl else fi.where,
+            "every window entries[stops[i-1] .. stops[i]] (closed) with an unpaired interior is a hairpin iff its ends pair with each other, else a loop strand candidate",
+            "the candidate windows are not the closed windows entries[stops[i-1]:stops[i]+1] for i in 1..len(stops)-1 with the interior/hairpin tests",
+            K(fi, "windows"),
+        )
+    if "links" in failed:
+        # linking graph
+        ll = [l for l in fi.node.body if isinstance(l, ast.For) and norm(l.iter) == "range(len(loop_candidates))"]
+        ok = False
+        if ll:
+            l0 = ll[0]
+            inner = [x for x in l0.body if isinstance(x, ast.For)]
+            if len(inner) == 1 and isinstance(l0.target, ast.Name) and isinstance(inner[0].target, ast.Name):
+                i, j = l0.target.id, inner[0].target.id
+                ok = norm(inner[0].iter) in (f"range({i} + 1, len(loop_candidates))",)
+                txt = [flat(s) for s in inner[0].body]
+                want = [
+                    flat(f"i_first, i_last = loop_candidates[{i}].first, loop_candidates[{i}].last"),
+                    flat(f"j_first, j_last = loop_candidates[{j}].first, loop_candidates[{j}].last"),
+                    flat(f"if self.entries[i_last - 1].pair == j_first:\n    graph[{i}].add({j})"),
+                    flat(f"if self.entries[j_last - 1].pair == i_first:\n    graph[{j}].add({i})"),
+                ]
+                ok = ok and txt == want
+        chk.expect(ok, "elements-links", fi.site(ll[0]) if ll else fi.where, "strand a links to strand b iff the nucleotide at a.last pairs with b.first (both directions examined for every pair)", "the linking graph is not built from entries[x_last - 1].pair == y_first over all pairs of loop candidates in both directions", K(fi, "links"))
+    if "closure" in failed:
+        # closure + loop record
+        closes = [s for s in ast.walk(fi.node) if isinstance(s, ast.If) and norm(s.test) == "self.entries[loop[0].first - 1].pair == loop[-1].last"]
+        ok = False
+        if len(closes) == 1:
+            inner = closes[0].body[0] if len(closes[0].body) == 1 and isinstance(closes[0].body[0], ast.If) else None
+            ok = inner is not None and flat(inner.test) in (flat("not all([strand.last - strand.first <= 1 for strand in loop])"), flat("not all(strand.last - strand.first <= 1 for strand in loop)"), flat("any(strand.last - strand.first > 1 for strand in loop)"))
+            ok = ok and [flat(s) for s in inner.body] == [flat("loops.append(Loop(loop))"), flat("used.update(loop)")]
+        chk.expect(ok, "elements-closure", fi.where, "a walk is a loop iff the first strand's first nucleotide pairs with the last strand's last; it is recorded in walk order", "loop closure/record is not `entries[loop[0].first - 1].pair == loop[-1].last` -> loops.append(Loop(loop)) in walk order", K(fi, "closure"))
+    if "tails" in failed:
+        # leftovers
+        lo = [l for l in fi.node.body if isinstance(l, ast.For) and norm(l.iter) == "loop_candidates"]
+        ok = len(lo) == 1 and len(lo[0].body) == 1 and isinstance(lo[0].body[0], ast.If) and flat(lo[0].body[0].test) == flat(f"{norm(lo[0].target)} not in used") and [flat(s) for s in lo[0].body[0].body] == [flat(f"single_strands.append(SingleStrand({norm(lo[0].target)}, False, False))")]
+        chk.expect(ok, "elements-leftover", fi.where, "loop candidates that are in no loop become single strands", "loop candidates not used by a loop are not all reported as SingleStrand(candidate, False, False)", K(fi, "leftover"))
+    check_walk_and_result(chk, fi, walk="walk" in failed)
 
 
-def check_walk_and_result(chk, fi) -> None:
-    # walk: follows one unused successor at a time
+def check_walk_and_result(chk, fi, walk: bool = True) -> None:
+    # walk: follows one unused successor at a time (pinned form; the fact-level rule is c07e.walk_fact)
     walks = [w for w in ast.walk(fi.node) if isinstance(w, ast.While) and norm(w.test) == "True"]
     ok = False
     if len(walks) == 1:
@@ -262,7 +388,8 @@ def check_walk_and_result(chk, fi) -> None:
             f0 = w.body[0]
             j = norm(f0.target)
             ok = len(f0.body) == 1 and isinstance(f0.body[0], ast.If) and flat(f0.body[0].test) == flat(f"loop_candidates[{j}] not in used and loop_candidates[{j}] not in loop") and [flat(s) for s in f0.body[0].body] == [flat(f"loop.append(loop_candidates[{j}])"), flat(f"i = {j}"), "break"]
-    chk.expect(ok, "elements-walk", fi.where, "the walk appends one unused successor at a time and stops when there is none", "the loop walk is not `follow the first unused successor not yet in the loop until none is left`", K(fi, "walk"))
+    if walk:
+        chk.expect(ok, "elements-walk", fi.where, "the walk appends one unused successor at a time and stops when there is none", "the loop walk is not `follow the first unused successor not yet in the loop until none is left`", K(fi, "walk"))
     rets = [r for r in fi.node.body if isinstance(r, ast.Return)]
     chk.expect(len(rets) == 1 and flat(rets[0].value) == "stems,single_strands,hairpins,loops", "elements-result", fi.where, "returns (stems, single_strands, hairpins, loops)", "does not return (stems, single_strands, hairpins, loops)", K(fi, "result"))
 
@@ -282,6 +409,79 @@ def check_tertiary_sites(chk) -> None:
     chk.expect(ok, "index-discipline", gs.where, "pair t of a stem = (strand5p.first + t, strand3p.last - t) for t in [0, length)", "stem pairs are not enumerated as (strand5p.first + i, strand3p.last - i) for i in range(last - first + 1)", K(gs, "pairs"), found=body)
 
 
+def check_cli(chk) -> None:
+    """motif_extractor.main: the dot-bracket it prints and the elements it lists belong to the same structure object (same reaching
+    definition), otherwise the strand texts are not slices of the reported notation."""
+    repo = chk.repo
+    if "motif_extractor" not in repo.modules or not repo.has_func("motif_extractor", "main"):
+        chk.error("cli-same-structure", "-", "motif_extractor.main not found")
+        return
+    fi = repo.func("motif_extractor", "main")
+    chk.note_function(fi)
+    counter = [0]
+    uses = []  # (attr, name, version, node)
+
+    def fresh() -> int:
+        counter[0] += 1
+        return counter[0]
+
+    def scan_expr(e: ast.AST, ver: dict) -> None:
+        for n in ast.walk(e):
+            if isinstance(n, ast.Attribute) and n.attr in ("dot_bracket", "elements") and isinstance(n.value, ast.Name):
+                uses.append((n.attr, n.value.id, ver.get(n.value.id, 0), n))
+
+    def block(stmts, ver: dict) -> dict:
+        for st in stmts:
+            if isinstance(st, ast.If):
+                scan_expr(st.test, ver)
+                a = block(st.body, dict(ver))
+                b = block(st.orelse, dict(ver))
+                for k in set(a) | set(b):
+                    if a.get(k, ver.get(k, 0)) != b.get(k, ver.get(k, 0)):
+                        ver[k] = fresh()  # value depends on the branch taken: a new definition point
+                    else:
+                        ver[k] = a.get(k, ver.get(k, 0))
+            elif isinstance(st, (ast.For, ast.While, ast.With, ast.Try)):
+                for fld in ("iter", "test"):
+                    if hasattr(st, fld):
+                        scan_expr(getattr(st, fld), ver)
+                for fld in ("body", "orelse", "finalbody"):
+                    if getattr(st, fld, None):
+                        ver.update(block(getattr(st, fld), ver))
+                for h in getattr(st, "handlers", []):
+                    ver.update(block(h.body, ver))
+            elif isinstance(st, ast.Assign):
+                scan_expr(st.value, ver)
+                for t in st.targets:
+                    for nm in astq.target_names(t):
+                        if isinstance(t, ast.Name) and isinstance(st.value, ast.Name):
+                            ver[nm] = ver.get(st.value.id, 0)  # alias
+                        else:
+                            ver[nm] = fresh()
+            else:
+                scan_expr(st, ver)
+        return ver
+
+    block(fi.node.body, {})
+    shown = [(nm, v, n) for a, nm, v, n in uses if a == "dot_bracket"]
+    listed = [(nm, v, n) for a, nm, v, n in uses if a == "elements"]
+    if not listed:
+        chk.error("cli-same-structure", fi.where, "no `.elements` access found in motif_extractor.main")
+        return
+    lv = {(nm, v) for nm, v, _ in listed}
+    bad = [(nm, v, n) for nm, v, n in shown if (nm, v) not in lv]
+    if bad:
+        nm, v, n = bad[0]
+        chk.violation(
+            "cli-same-structure",
+            fi.site(n),
+            f"`{nm}.dot_bracket` is shown for another value of `{nm}` than the one whose elements are listed (line {listed[0][2].lineno}): `{nm}` is reassigned in between, so the strand texts are not slices of the reported dot-bracket",
+            K(fi, "cli-same-structure"),
+        )
+    else:
+        chk.ok("cli-same-structure", fi.where, f"{len(shown)} shown dot-bracket(s) and {len(listed)} element listing(s) read the same definition of the structure")
+
+
 def run(chk) -> None:
     chk.explanation = (
         "Index-kind analysis (every nucleotide-naming integer carries base 0/1 and a constant offset; subscripts, slice bounds, stores into 1-based fields, range bounds, comparisons and "
@@ -293,19 +493,25 @@ def run(chk) -> None:
     chk.assumptions = ["valid BPSEQ", "correctness of the loop-linking walk on knotted multiloops and the exactly-once coverage as a whole are not decided (DESIGN.md C07 residual)"]
     chk.robust |= {"index-discipline", "stems-run", "stems-filter", "region-triple", "elements-dotbracket"}
     # fact-level rules of checks/c07e.py decide the same behaviour on rewritten code; the pinned forms are reading aids there
-    chk.robust |= {"elements-prelude-fact", "elements-stops-fact", "elements-windows-fact", "elements-tails-fact", "elements-links-fact", "elements-closure-fact"}
+    chk.robust |= {"elements-prelude-fact", "elements-stops-fact", "elements-windows-fact", "elements-tails-fact", "elements-links-fact", "elements-closure-fact", "elements-walk-fact", "cli-same-structure", "strand-eval", "stem-eval"}
     check_discipline(chk)
     check_strand(chk)
     check_elements(chk)
     check_tertiary_sites(chk)
+    check_cli(chk)
     c01.check_stems(chk)
     c01.check_regions(chk)
 
 
 MANIFEST_ENTRY = {
-    "text": "Static index-kind analysis of the current source (0-based positions vs 1-based BPSEQ numbers with constant offsets) at every subscript, slice bound, 1-based field store, range bound and "
-    "comparison of the element decomposition, plus window-shape rules for BpSeq.elements (stops, closed windows, tails, hairpin/link/closure tests, walk order, own dot-bracket) and the Strand/Stem "
-    "constructors. These are necessary conditions whose violation shifts, truncates or mis-links elements for some structure; they hold for all structures because they are facts about the index arithmetic itself.",
-    "note": "Trusted: seed table of 1-based fields. Not decided: the loop-linking walk on knotted multiloops and the 'exactly one' coverage claim as a whole (need execution).",
-    "technique": "static analysis: abstract interpretation with index kinds (base, offset) + structural shape rules over the ast",
+    "text": "Static analysis of the current source of the element decomposition: (1) index-kind abstract interpretation (0-based positions vs 1-based BPSEQ numbers with constant offsets) at every "
+    "subscript, slice bound, 1-based field store, range bound and comparison; (2) fact-level rules for BpSeq.elements over canonical symbolic positions (affine forms with def-use roles, literal loops "
+    "unrolled, path enumeration of the window loop): the stop set is exactly the four strand ends of every stem, every consecutive pair of stops cuts a closed window that becomes a hairpin / a loop-strand "
+    "candidate / nothing by the interior and end tests, the two tails and the leftover strands, the linking graph (edge iff entries[a.last-1].pair == b.first, every ordered pair examined, also through an "
+    "index map), the closure test and walk order, the three idioms of the successor walk, every strand text sliced from the structure's own dot-bracket; (3) the Strand/Stem constructors evaluated as "
+    "extracted fragments on representative spans (affine in first/length); (4) a reaching-definition rule for the CLI (the dot-bracket shown and the elements listed belong to the same object); (5) the "
+    "cross-cutting memo-key rule. All are necessary conditions whose violation shifts, truncates, drops or mis-links elements for some structure; they hold for all structures because they are facts about the "
+    "index arithmetic and the paths of the code itself. Pinned-form comparison is used only as a per-aspect fallback when an aspect cannot be read at fact level.",
+    "note": "Trusted: seed table of 1-based fields, CPython ast. Not decided: that the coded walk finds every loop of a knotted multiloop, and the 'exactly one' coverage claim as a whole (need execution).",
+    "technique": "static analysis: abstract interpretation with index kinds (base, offset) + symbolic affine positions with def-use roles + path enumeration + fragment evaluation on input-class representatives + reaching definitions, all over the ast",
 }
